@@ -351,6 +351,83 @@ func ruleSpace(w *World, r *Report) {
 			}
 		})
 	}
+	if delims == "" {
+		// the same set as a predicate over a rune: r == '(' || … (a switch) in a helper the token scanner calls
+		for _, an := range lex.AnonFuncs {
+			EachInstr(an, func(in ssa.Instruction) {
+				c, ok := in.(*ssa.Call)
+				if !ok {
+					return
+				}
+				h := c.Call.StaticCallee()
+				if h == nil || !w.funcSet[h] || len(h.Params) != 1 || h.Signature.Results().Len() != 1 {
+					return
+				}
+				if bt, okb := h.Params[0].Type().Underlying().(*types.Basic); !okb || bt.Kind() != types.Int32 {
+					return
+				}
+				set := map[rune]bool{}
+				clean := true
+				positives := func(facts []Fact) []rune {
+					var out []rune
+					for _, f := range facts {
+						if bo, ok := f.Cond.(*ssa.BinOp); ok && bo.Op == token.EQL && f.Truth {
+							if x, y, okc := orientCmp(bo, token.EQL); okc {
+								if x == ssa.Value(h.Params[0]) {
+									if cv, okv := constInt(y); okv {
+										out = append(out, rune(cv))
+									}
+								} else if y == ssa.Value(h.Params[0]) {
+									if cv, okv := constInt(x); okv {
+										out = append(out, rune(cv))
+									}
+								}
+							}
+						}
+					}
+					return out
+				}
+				for _, ret := range allReturns(h) {
+					b, okb := constBool(ret.Results[0])
+					if !okb {
+						clean = false
+						continue
+					}
+					if !b {
+						continue
+					}
+					if ps := positives(factsAtLocal(ret.Block())); len(ps) > 0 {
+						for _, x := range ps {
+							set[x] = true
+						}
+						continue
+					}
+					for _, p := range ret.Block().Preds {
+						for kk, sc := range p.Succs {
+							if sc != ret.Block() {
+								continue
+							}
+							ps := positives(factsAtEdge(p, kk))
+							if len(ps) == 0 {
+								clean = false
+							}
+							for _, x := range ps {
+								set[x] = true
+							}
+						}
+					}
+				}
+				if clean && len(set) > 0 {
+					var rs []rune
+					for x := range set {
+						rs = append(rs, x)
+					}
+					sort.Slice(rs, func(i, j int) bool { return rs[i] < rs[j] })
+					delims = string(rs)
+				}
+			})
+		}
+	}
 	want := map[rune]bool{'(': true, ')': true, '[': true, ']': true, ';': true, ',': true}
 	okDelims := len(delims) == len(want)
 	for _, c := range delims {
